@@ -89,18 +89,24 @@ def r1(ctx):
                   f"`{field}={norm(v)}` is not fed by the pooling visitor from `{mp}.{field}` (visitor feeds {dict((k, sorted(x)) for k, x in fed.items())})")
     # the guard itself
     ef = P.func(MAT + "._evaluate_factor")
-    guards = [n for n in ast.walk(ef.node) if isinstance(n, ast.If) and "spec.encoder_state" in norm(n.test)]
-    ctx.floor("C09.R1", len(guards), 1, "kind guards")
-    g = guards[0]
-    t = norm(g.test)
-    ok = t == "factor.expr in spec.encoder_state and value.__formulaic_metadata__.kind is not spec.encoder_state[factor.expr][0]" \
-        and isinstance(g.body[0], ast.Raise) and "FactorEncodingError" in norm(g.body[0])
+    from ..util import guards_of
+    raises = [n for n in ast.walk(ef.node) if isinstance(n, ast.Raise) and n.exc is not None and "FactorEncodingError" in norm(n.exc)
+              and any("spec.encoder_state" in c for c, _ in guards_of(P, n))]
+    ctx.floor("C09.R1", len(raises), 1, "kind guards")
+    g = raises[0]
+    gs = [(c, pol) for c, pol in guards_of(P, g) if "encoder_state" in c]
+    want = {("factor.expr in spec.encoder_state", True), ("value.__formulaic_metadata__.kind is spec.encoder_state[factor.expr][0]", False)}
+    ok = set(gs) == want
     ctx.check(ok, "C09.R1", "the kind guard compares the evaluated kind with the recorded one and raises FactorEncodingError", ef.module.line(g),
-              ctx.construct(ef, text="kind guard"), f"guard is `{t[:140]}` → `{stmt_text(g.body[0], 60)}`")
+              ctx.construct(ef, text="kind guard"), f"guard conditions are {gs}")
     # the guard precedes caching, and the recorded kind is what _encode_evaled_factor stores
     cfg = CFG(ef.node)
+    gst = P.enclosing_stmt(g)
+    top = gst
+    while P.parent(top) is not None and not isinstance(P.parent(top), (ast.FunctionDef, ast.AsyncFunctionDef)) and isinstance(P.parent(top), ast.If):
+        top = P.parent(top)
     stores = [s for s in cfg.stmts() if isinstance(s, ast.Assign) and norm(s.targets[0]) == "self.factor_cache[factor.expr]"]
-    ctx.check(bool(stores) and all(cfg.dominates(g, s) for s in stores), "C09.R1", "the kind guard runs before the factor is cached", ef.module.line(g),
+    ctx.check(bool(stores) and all(cfg.dominates(top, s) for s in stores), "C09.R1", "the kind guard runs before the factor is cached", ef.module.line(g),
               ctx.construct(ef, text="guard before cache"), "a factor can be cached without the kind guard having run")
     en = P.func(MAT + "._encode_evaled_factor")
     rec = [s for s in ast.walk(en.node) if isinstance(s, ast.Assign) and norm(s.targets[0]) == "spec.encoder_state[factor.expr]"]
@@ -109,7 +115,8 @@ def r1(ctx):
     ctx.check(ok, "C09.R1", "the recorded encoder state is (kind, state) keyed by the factor expression", en.where, ctx.construct(en, text="record kind"),
               f"records `{norm(rec[0].value) if rec else None}`")
     encoder_state_recorded_on_every_path(ctx, "C09.R1")
-    ok = "encoder_state: dict[str, Any] = spec.encoder_state.get(factor.expr, [None, {}])[1]" in norm(en.node)
+    ok = any(sym.pm("VAR_s = spec.encoder_state.get(factor.expr, [None, {}])[1]", n) is not None
+             or sym.pm("VAR_s: ANY_t = spec.encoder_state.get(factor.expr, [None, {}])[1]", n) is not None for n in ast.walk(en.node))
     ctx.check(ok, "C09.R1", "encoders receive the recorded state of the same factor", en.where, ctx.construct(en, text="reuse state"),
               "expected encoder_state = spec.encoder_state.get(factor.expr, [None, {}])[1]")
 
@@ -159,53 +166,70 @@ def encoder_state_recorded_on_every_path(ctx, rule: str):
 def r2(ctx):
     P = ctx.project
     f = P.func(MAT + "._enforce_structure")
-    lp = [n for n in walk_no_nested(f.node) if isinstance(n, ast.For)]
-    if not lp:
+    try:
+        outs = sym.outcomes(f.node)
+    except sym.Unmodelled as e:
+        raise AnalysisError(f"C09.R2: _enforce_structure cannot be summarised: {e}")
+    lps = sym.loops_of(outs)
+    if not lps:
         raise AnalysisError("C09.R2: loop of _enforce_structure not found")
-    lp = lp[0]
-    t = norm(lp)
+    lp = lps[0]
     ctx.look(5)
-    env = {n: norm(v) for n, v, _ in assignments(lp)}
-    ok_src = env.get("scoped_cols", "").startswith("col_spec[2]") or "col_spec[2]" in [v for v in env.values()]
-    ok_tgt = env.get("target_cols") == "structure[i][2]" and norm(lp.iter) == "enumerate(cols)"
-    ctx.check(ok_tgt, "C09.R2", "generated columns are compared with the recorded columns of the same term", f.module.line(lp),
-              ctx.construct(f, text="pairing"), f"target_cols = `{env.get('target_cols')}` over `{norm(lp.iter)}`")
-    ifs = [n for n in lp.body if isinstance(n, ast.If)]
-    many = [n for n in ifs if norm(n.test) == "len(scoped_cols) > len(target_cols)"]
-    ok = len(many) == 1 and isinstance(many[0].body[0], ast.Raise) and "FactorEncodingError" in norm(many[0].body[0])
-    ctx.check(ok, "C09.R2", "too many generated columns raise FactorEncodingError", f.module.line(lp), ctx.construct(f, text="too many"),
-              "expected `if len(scoped_cols) > len(target_cols): raise FactorEncodingError`")
-    few = [n for n in ifs if norm(n.test) == "len(scoped_cols) < len(target_cols)"]
-    ok = False
-    if len(few) == 1:
-        inner = few[0].body[0]
-        arms = []
-        n = inner
-        while isinstance(n, ast.If):
-            arms.append(norm(n.test))
-            n = n.orelse[0] if len(n.orelse) == 1 and isinstance(n.orelse[0], ast.If) else n.orelse
-        ok = arms == ["len(scoped_cols) == 0", "len(scoped_cols) == 1"] and isinstance(n, list) and n and isinstance(n[0], ast.Raise) and "FactorEncodingError" in norm(n[0])
-    ctx.check(ok, "C09.R2", "too few generated columns raise unless exactly 0 or 1 were generated", f.module.line(lp), ctx.construct(f, text="too few"),
-              "only the 0-column and 1-column imputation cases may avoid the error")
-    mism = None
-    if few:
-        for e in few[0].orelse:
-            if isinstance(e, ast.If) and norm(e.test) == "set(scoped_cols) != set(target_cols)":
-                mism = e
-    ok = mism is not None and isinstance(mism.body[0], ast.Raise) and "FactorEncodingError" in norm(mism.body[0])
-    ctx.check(ok, "C09.R2", "a name-set mismatch raises FactorEncodingError", f.module.line(lp), ctx.construct(f, text="mismatch"),
-              "expected `elif set(scoped_cols) != set(target_cols): raise FactorEncodingError`")
-    ys = [n for n in ast.walk(lp) if isinstance(n, ast.Yield)]
-    ok = len(ys) == 1 and isinstance(ys[0].value, ast.Tuple) and norm(ys[0].value.elts[2]) == "{col: scoped_cols[col] for col in target_cols}"
-    ctx.check(ok, "C09.R2", "the yielded columns are keyed by the recorded names in the recorded order", f.module.line(lp), ctx.construct(f, text="yield"),
-              f"yield is `{norm(ys[0].value)[:120] if ys else None}`")
-    pre = [n for n in f.node.body if isinstance(n, ast.If) and "len(cols) == len(structure)" in norm(n.test)]
-    ctx.check(len(pre) == 1 and isinstance(pre[0].body[0], ast.Raise), "C09.R2", "a term-count mismatch raises", f.where, ctx.construct(f, text="term count"),
+    cols_p = param_names(f.node)[1]
+    head, tgt = lp._sym_head, lp._sym_orig.target
+    SC = TC = CS = None
+    if isinstance(tgt, ast.Tuple) and len(tgt.elts) == 2:
+        a_, b_ = norm(tgt.elts[0]), norm(tgt.elts[1])
+        if sym.pm(f"enumerate({cols_p})", head) is not None:
+            CS, SC, TC = b_, f"{b_}[2]", f"spec.structure[{a_}][2]"
+        elif sym.pm(f"zip({cols_p}, spec.structure)", head) is not None:
+            CS, SC, TC = a_, f"{a_}[2]", f"{b_}[2]"
+    line = f.module.line(lp._sym_orig)
+    ctx.check(SC is not None, "C09.R2", "generated columns are compared with the recorded columns of the same term", line,
+              ctx.construct(f, text="pairing"), f"the loop must pair the i-th generated term with the i-th recorded term; it iterates `{norm(head)}`")
+    if SC is None:
+        return
+    GT, LT, EQ = f"len({SC}) > len({TC})", f"len({SC}) < len({TC})", f"set({SC}) == set({TC})"
+
+    def it(gt, lt, z=None, o=None, eq=None):
+        facts = {GT: gt, LT: lt}
+        if z is not None:
+            facts.update({f"len({SC}) == 0": z, SC: not z})
+        if o is not None:
+            facts[f"len({SC}) == 1"] = o
+        if eq is not None:
+            facts[EQ] = eq
+        return sym.iteration_effects(outs, lp, facts)
+
+    def all_raise(res):
+        return bool(res) and all(k == "raise" and "FactorEncodingError" in norm(o.value) for k, _e, _env, o in res)
+
+    def yields(res):
+        return [o for k, _e, _env, o in res if k == "yield"]
+
+    many = it(True, False)
+    ctx.check(all_raise(many), "C09.R2", "too many generated columns raise FactorEncodingError", line, ctx.construct(f, text="too many"),
+              f"expected FactorEncodingError when more columns were generated than recorded; found {[k for k, *_ in many]}")
+    few_bad = it(False, True, z=False, o=False)
+    few0, few1 = it(False, True, z=True, o=False), it(False, True, z=False, o=True)
+    ok = all_raise(few_bad) and bool(yields(few0)) and bool(yields(few1)) and not any(k == "raise" for k, *_ in few0 + few1)
+    ctx.check(ok, "C09.R2", "too few generated columns raise unless exactly 0 or 1 were generated", line, ctx.construct(f, text="too few"),
+              f"only the 0-column and 1-column imputation cases may avoid the error; 2..n-1 columns: {[k for k, *_ in few_bad]}, 0: {[k for k, *_ in few0]}, 1: {[k for k, *_ in few1]}")
+    mism = it(False, False, eq=False)
+    ctx.check(all_raise(mism), "C09.R2", "a name-set mismatch raises FactorEncodingError", line, ctx.construct(f, text="mismatch"),
+              f"expected FactorEncodingError when as many columns were generated but their names differ; found {[k for k, *_ in mism]}")
+    good = yields(it(False, False, eq=True)) + yields(few0) + yields(few1)
+    ok = bool(good) and all(sym.pm(f"({CS}[0], {CS}[1], {{VAR_c: ANY_src[VAR_c] for VAR_c in {TC}}})", o.value) is not None for o in good)
+    ctx.check(ok, "C09.R2", "the yielded columns are keyed by the recorded names in the recorded order", line, ctx.construct(f, text="yield"),
+              f"yields {[norm(o.value)[:120] for o in good]}; expected ({CS}[0], {CS}[1], {{name: <columns>[name] for name in {TC}}})")
+    pre = [o for o in outs if not o.loops and o.kind == "raise" and any((not pol) and norm(c) == f"len({cols_p}) == len(spec.structure)" for c, pol in o.conds)]
+    ctx.check(len(pre) >= 1, "C09.R2", "a term-count mismatch raises", f.where, ctx.construct(f, text="term count"),
               "the number of generated terms must equal the number of recorded terms")
     # the builder takes the enforcement path exactly when structure is recorded (shared with C04.R3)
     b = P.func(MAT + "._build_model_matrix")
-    ifs = [n for n in walk_no_nested(b.node) if isinstance(n, ast.If) and norm(n.test) == "spec.structure"]
-    ok = any("self._enforce_structure(cols, spec, drop_rows)" in norm(n.body[0]) for n in ifs)
+    from ..util import guards_of
+    es = [c for c in ast.walk(b.node) if isinstance(c, ast.Call) and isinstance(c.func, ast.Attribute) and c.func.attr == "_enforce_structure"]
+    ok = len(es) == 1 and guards_of(P, es[0]) == [("spec.structure", True)]
     ctx.check(ok, "C09.R2", "recorded structure is enforced whenever it exists", b.where, ctx.construct(b, text="enforce when structure"),
               "expected `if spec.structure: cols = list(self._enforce_structure(cols, spec, drop_rows))`")
 
